@@ -1,0 +1,87 @@
+//go:build verif
+
+package pcs
+
+import (
+	"crypto/x509"
+
+	"github.com/oasisprotocol/oasis-core/go/common/sgx"
+)
+
+// This file is only compiled with the `verif` build tag. It exposes the parsed (private)
+// parts of a quote and the lax-verification switch to the verification harness in /verif
+// (property C18). It adds no behaviour to the package.
+
+// VerifQuoteParts are the parsed parts of a quote exactly as Quote.Verify sees them.
+type VerifQuoteParts struct {
+	Version   uint16
+	TeeType   uint32
+	HeaderRaw []byte
+
+	BodyKind string // "sgx" or "td"
+	BodyRaw  []byte
+
+	Signature      [64]byte
+	AttestationKey [64]byte
+
+	QEReportRaw       []byte
+	QEReportSignature [64]byte
+	AuthData          []byte
+
+	CertDataType uint16
+	Chain        []*x509.Certificate // Only for CertificationDataPCKCertificateChain.
+}
+
+// VerifParts returns the parsed parts of the quote.
+func (q *Quote) VerifParts() *VerifQuoteParts {
+	p := &VerifQuoteParts{
+		Version:   q.header.Version(),
+		TeeType:   uint32(q.header.TeeType()),
+		HeaderRaw: q.header.Raw(),
+		BodyRaw:   q.reportBody.Raw(),
+	}
+	switch q.reportBody.(type) {
+	case *SgxReport:
+		p.BodyKind = "sgx"
+	case *TdReport:
+		p.BodyKind = "td"
+	}
+	if qs, ok := q.signature.(*QuoteSignatureECDSA_P256); ok {
+		p.Signature = qs.signature
+		p.AttestationKey = qs.attestationPublicKey
+		p.QEReportRaw = qs.qe.QEReport.raw
+		p.QEReportSignature = qs.qe.QEReportSignature
+		p.AuthData = qs.qe.AuthenticationData
+		p.CertDataType = uint16(qs.qe.CertificationData.CertificationDataType())
+		if cd, ok := qs.qe.CertificationData.(*CertificationData_PCKCertificateChain); ok {
+			p.Chain = cd.CertificateChain
+		}
+	}
+	return p
+}
+
+// VerifSetLaxVerify sets or clears the lax TCB status verification switch.
+func VerifSetLaxVerify(lax bool) {
+	unsafeLaxVerify = lax
+}
+
+// VerifSetMrSignerBlacklist replaces the MRSIGNER blacklist.
+func VerifSetMrSignerBlacklist(list [][]byte) {
+	mrSignerBlacklist = make(map[sgx.MrSigner]bool)
+	for _, b := range list {
+		var m sgx.MrSigner
+		copy(m[:], b)
+		mrSignerBlacklist[m] = true
+	}
+}
+
+// VerifMrSignerBlacklist returns the current MRSIGNER blacklist.
+func VerifMrSignerBlacklist() [][]byte {
+	var out [][]byte
+	for k, v := range mrSignerBlacklist {
+		if v {
+			out = append(out, append([]byte{}, k[:]...))
+		}
+	}
+	return out
+}
